@@ -19,6 +19,8 @@ structure St where
   completed : List Nat := []          -- ids of the snapshots the current store holds as completed
   fresh : Bool := false               -- nothing touched the operators' files since the last successful load
   cleanLoad : Bool := false           -- that load started from a wiped working storage
+  held : Option (Published × Nat × FS) := none   -- a creation parked before its n-th storage call; storage at its start
+  repaired : List (Nat × FS) := []    -- D53: savepoints whose artifact differs from the one the repair gives (that storage)
   frozen : Bool := false
   wiped : Bool := false
   created : List (Nat × FS) := []     -- successful savepoints: id ↦ storage right after the creation
@@ -97,6 +99,36 @@ def afterAck (st : St) (r : Store × Option Published) : St :=
   | some pub => { st with store := r.1, parked := st.parked ++ [pub], acked := [], srcAcked := false }
   | none => { st with store := r.1 }
 
+/-- the environment's moves that turn the working files of `old` into those of `new` -/
+def workDiff (old new : FS) : List WorkOp :=
+  let keys := fun (fs : FS) => (dedupKeys (fs.map (·.1)) []).filter isWorkFile
+  let puts := (keys new).filterMap fun p => match p, read new p with
+    | .work u, some c => some (WorkOp.put u c)
+    | _, _ => none
+  let dels := (keys old).filterMap fun p => match p, read new p with
+    | .work u, none => some (WorkOp.del u)
+    | _, _ => none
+  dels ++ puts
+
+def spListing (fs : FS) (id : Nat) : String := listing fs (fun p => p.inSp id)
+
+/-- `finishSnapshotAsync` in one piece (nothing else happens meanwhile) -/
+def release (st st' : St) (k : Nat) : St × String :=
+  if st.wiped then (st', "wiped") else
+  if !st.dumped then (st', "nodump") else
+  if st.held.isSome then (st', "busy") else
+  match st.parked[k]? with
+  | none => (st', "nothing")
+  | some pub =>
+    let id := pub.1.id
+    let r := publish lister st.fs (jobURI id) pub
+    -- the obsolete (older) job snapshot files are removed, by id
+    let st2 := { st' with fs := cleanup r.1 (st.completed.filter (· < id)), parked := st.parked.eraseIdx k,
+                          released := true, completed := id :: st.completed.filter (· ≥ id) }
+    if !r.2 then (st2, s!"savepoint-error {pub.1.id}")
+    else if pub.2 then ({ st2 with created := (id, r.1) :: st.created }, s!"published {id} savepoint")
+    else (st2, s!"published {pub.1.id}")
+
 def step (st : St) (line : List String) : St × String :=
   let (op, fed) := splitFeed line
   let touches := match op with
@@ -107,6 +139,12 @@ def step (st : St) (line : List String) : St × String :=
   match op with
   | ["put", _, _, _] | ["del", _, _] | ["put", _, _] =>
       if st.wiped then (st', "wiped") else if st.frozen then (st', "frozen") else (st', "ok")
+  -- cluster mode (real Job + workers): theorem instances evaluated by the implementation side
+  | ["boot"] => (st', "running")
+  | ["feed", _, _] => (st', "ok")                    -- after a restart: C14.savepoint_roundtrip (+ C08/C06 for the state)
+  | ["ckpt", _] => (st', "done")
+  | ["savepoint", _] | ["savepoint", _, "fold"] => (st', "savepoint ok")   -- C14.savepoint_folds / folded_savepoint_published
+  | ["restart", _, _] => (st', "restored ok")        -- C14.savepoint_roundtrip: loaded snapshot = the savepoint's
   | ["ckpt"] =>
       if !live then (st', "wiped") else
       match createCheckpoint st.store st.nOps with
@@ -137,7 +175,7 @@ def step (st : St) (line : List String) : St × String :=
       | none => (st', "nopending")
       | some p =>
         if st.srcAcked then (st', "dup") else
-        let r := ackSrc st.store p.id s!"s{p.id}"
+        let r := ackSrc st.store p.id s!"s{p.id}|SPL"   -- split state of the runner | state of the splitter
         (afterAck { st' with srcAcked := true } r, "ok" ++ pubSuffix r.2)
   | ["redeploy", _] => if !live then (st', "wiped") else if st.frozen then (st', "frozen") else (st', "ok")
   | "retain" :: _ => if !live then (st', "wiped") else if st.frozen then (st', "frozen") else (st', "ok")
@@ -155,20 +193,39 @@ def step (st : St) (line : List String) : St × String :=
       | some fs0 =>
         -- C14.savepoint_nonintrusive: publication writes only the job snapshot file and the savepoint directory
         if listing st.fs isWorkFile == listing fs0 isWorkFile then (st', "ok") else (st', "changed")
-  | ["release", k] =>
+  | ["release", k] => release st st' (natOr k)
+  | ["release", k, "hold", n] =>
+      -- the creation is parked before its n-th storage call (document reads and copies, in order) if it gets there
       if !live then (st', "wiped") else
       if !st.dumped then (st', "nodump") else
-      match st.parked[natOr k]? with
-      | none => (st', "nothing")
-      | some pub =>
+      if st.held.isSome then (st', "busy") else
+      match st.parked[natOr k]?, fed with
+      | none, _ => (st', "nothing")
+      | some pub, "held" :: _ =>
+        ({ st' with held := some (pub, natOr n, st.fs), parked := st.parked.eraseIdx (natOr k) }, "held")
+      | some _, _ => release st st' (natOr k)
+  | ["resume"] =>
+      match st.held with
+      | none => (st', "nohold")
+      | some (pub, n, fs0) =>
+        if !st.dumped then (st', "nodump") else
         let id := pub.1.id
-        let r := publish lister st.fs (jobURI id) pub
-        -- the obsolete (older) job snapshot files are removed, by id
-        let st2 := { st' with fs := cleanup r.1 (st.completed.filter (· < id)), parked := st.parked.eraseIdx (natOr k),
-                              released := true, completed := id :: st.completed.filter (· ≥ id) }
-        if !r.2 then (st2, s!"savepoint-error {pub.1.id}")
-        else if pub.2 then ({ st2 with created := (id, r.1) :: st.created }, s!"published {id} savepoint")
-        else (st2, s!"published {pub.1.id}")
+        -- what the running job did to the working storage meanwhile happens just before the n-th storage call
+        let sched : Sched := List.replicate n [] ++ [workDiff fs0 st.fs]
+        let start := write (.work (jobURI id)) (.job pub.1) fs0
+        let run := fun (m : DocMode) =>
+          if pub.2 then createArtifactS lister m start (jobURI id) pub.1 sched else (applyWork start (workDiff fs0 st.fs), true)
+        let r := run docMode
+        let spec := run .writeRead
+        let st2 := { st' with fs := cleanup r.1 (st.completed.filter (· < id)), held := none, released := true,
+                              completed := id :: st.completed.filter (· ≥ id) }
+        let render := fun (x : FS × Bool) =>
+          if !x.2 then s!"savepoint-error {id}" else if pub.2 then s!"published {id} savepoint" else s!"published {id}"
+        let st3 := if r.2 && pub.2 then { st2 with created := (id, start) :: st.created } else st2
+        -- D53: the code copies the document file as it is by then; the property needs the document that was listed
+        let differs := docMode == .copyFile && (r.2 != spec.2 || spListing r.1 id != spListing spec.1 id)
+        let st4 := if differs then { st3 with repaired := (id, spec.1) :: st.repaired } else st3
+        if render r == render spec then (st4, render r) else (st4, render r ++ " #spec " ++ render spec ++ " #kf D53")
   | ["art"] =>
       -- only complete artifacts (those with a job.savepoint); leftovers of failed creations are not compared
       let complete := fun (id : Nat) => (read st.fs (.spJob id)).isSome
@@ -179,7 +236,7 @@ def step (st : St) (line : List String) : St × String :=
   | ["work"] =>
       if st.loaded.isNone then (st', "noload") else if !(st.fresh && st.cleanLoad) then (st', "notclean")
       else (st', listing st.fs isWorkFile)
-  | ["wipe"] => ({ st' with fs := wipe st.fs, wiped := true, parked := [], loaded := none }, "ok")
+  | ["wipe"] => ({ st' with fs := wipe st.fs, wiped := true, parked := [], loaded := none, held := none }, "ok")
   | ["junk", _] =>
       if live then (st', "notwiped") else
       match fed with
@@ -187,12 +244,22 @@ def step (st : St) (line : List String) : St × String :=
       | _ => (st', "none")
   | ["load", id] =>
       -- a (re)start of the job from a savepoint URI: after a wipe, or as a roll-back while the job was running
+      -- D53 situation: this savepoint's artifact was built by a creation during which an operator rewrote its
+      -- document, and the repaired creation would have given another artifact: the spec is the load from that one
+      let specOut : Option String := (st.repaired.find? (·.1 == natOr id)).map fun e =>
+        match startStore lister (e.2.filter (fun x => x.1.inSp (natOr id)) ++ st.fs) (natOr id) with
+        | (_, some (s, _)) => s!"loaded {rContent (.job s)}"
+        | (_, none) => "load-error"
+      let tag := fun (x : String) => match specOut with
+        | some y => if x == y then x else x ++ " #spec " ++ y ++ " #kf D53"
+        | none => x
       match startStore lister st.fs (natOr id) with
       | (fs, some (s, store)) =>
         ({ st' with fs := fs, loaded := some s, store := store, acked := [], srcAcked := false,
-                    parked := [], wiped := false, frozen := false, completed := [s.id], fresh := true, cleanLoad := st.wiped },
-         s!"loaded {rContent (.job s)}")
-      | (fs, none) => ({ st' with fs := fs, loaded := none, parked := [], wiped := true }, "load-error")
+                    parked := [], wiped := false, frozen := false, completed := [s.id], fresh := true, cleanLoad := st.wiped,
+                    held := none },
+         tag s!"loaded {rContent (.job s)}")
+      | (fs, none) => ({ st' with fs := fs, loaded := none, parked := [], wiped := true, held := none }, tag "load-error")
   | ["open", i] =>
       match st.loaded with
       | none => (st', "noload")
